@@ -72,6 +72,7 @@ pub(crate) mod b {
                             frags.push(label.clone());
                             frags.push(other.clone());
                         }
+                        let rendered: Vec<sauron::Node<()>> = FragmentTree::fragments_to_node(frags.clone());
                         let trees = FragmentTree::enclose_fragments(frags);
                         let is_tag = matches!(content, "{t}" | "{a,b1}" | "{_x}");
                         let want_names: Vec<&str> = match content { "{t}" => vec!["t"], "{a,b1}" => vec!["a", "b1"], "{_x}" => vec!["_x"], _ => vec![] };
@@ -115,6 +116,16 @@ pub(crate) mod b {
                         if others.len() != 1 {
                             ok = false;
                             why = format!("unrelated text rendered {} times", others.len());
+                        }
+                        // into_nodes: every node of the forest is rendered exactly once, at every depth
+                        fn count_nodes(trees: &[FragmentTree]) -> usize {
+                            trees.iter().map(|t| 1 + count_nodes(&t.enclosing)).sum()
+                        }
+                        let tags = |name: &str| rendered.iter().filter(|n| n.tag() == Some(&name)).count();
+                        let texts_in_forest = find(&trees, &|f| matches!(f, Fragment::CellText(_))).len();
+                        if rendered.len() != count_nodes(&trees) || tags("rect") != 5 || tags("circle") != 3 || tags("text") != texts_in_forest {
+                            ok = false;
+                            why = format!("{} nodes in the forest, {} rendered ({} rect, {} circle, {} text)", count_nodes(&trees), rendered.len(), tags("rect"), tags("circle"), tags("text"));
                         }
                         if !ok {
                             println!("BOUNDED-WITNESS tag {:?} placed in {} (order {:?}, text_first {}): {}", content, place, order, text_first, why);
